@@ -188,6 +188,8 @@ BuiltinSemantics ==
 \* M refines A once the errors of a field are added together; the unchanged algorithm differs from A exactly under
 \* the guard of the named deviation, and then it produces exactly ADev
 MFixedRefinesA(res, inst) == M(scn, inst, TRUE) = res
+\* without a parent key in the path the stream deviation changes nothing
+GarbleOnlyUnderGuard(res, inst) == ~DevGuard_MsgPackStreamParentKeyView(scn) => MGarbled(scn, inst) = res
 MUnchangedIsADev(res, mu) ==
   /\ mu = ADev(res)
   /\ (mu # res <=> DevGuard_ValidationCapTruncatesLastField(res))
@@ -198,9 +200,13 @@ Export(res, inst, mu) ==
                           fields |-> [k \in 1..NF(scn) |-> ExportField(scn.fields[k])],
                           archs |-> Archs(scn),
                           exp |-> Obs(scn, inst, res),
-                          expdev |-> IF DevGuard_ValidationCapTruncatesLastField(res)
-                                     THEN <<[dev |-> "Dev_ValidationCapTruncatesLastField", exp |-> Obs(scn, inst, mu)]>>
-                                     ELSE <<>>])>>)
+                          expdev |-> (IF DevGuard_ValidationCapTruncatesLastField(res)
+                                      THEN <<[dev |-> "Dev_ValidationCapTruncatesLastField", only |-> "any", exp |-> Obs(scn, inst, mu)]>>
+                                      ELSE <<>>)
+                                     \o (IF DevGuard_MsgPackStreamParentKeyView(scn)
+                                         THEN <<[dev |-> "Dev_MsgPackStreamParentKeyView", only |-> "msgpack-stream",
+                                                 exp |-> ObsGarbled(scn, inst, MGarbled(scn, inst))]>>
+                                         ELSE <<>>)])>>)
 
 \* violated conjunct = which statement failed (TLC reports the conjunct); Export is last: only consistent states are exported
 Check ==
@@ -215,6 +221,7 @@ Check ==
      /\ PassingFieldsLoaded(res, inst, failingInst)
      /\ BuiltinSemantics
      /\ MFixedRefinesA(res, inst)
+     /\ GarbleOnlyUnderGuard(res, inst)
      /\ MUnchangedIsADev(res, mu)
      /\ Export(res, inst, mu)
 =============================================================================
